@@ -10,6 +10,7 @@
    per logging call, the trace of actions; [calls_of d] projects a trace on
    destination d's call log (entry mode = Write or WriteLevel l, bytes). *)
 From Verif Require Import Base.Prelude Misc.Level Lts.Writers Proofs.WritersP.
+From Verif Require Base.GoSem Base.GoEff Base.GoExt Gen.WriterSrc Proofs.SrcWriterP.
 Open Scope Z_scope.
 
 (* For ALL destination lists, event sequences and outcome matrices: the call
@@ -162,6 +163,58 @@ Proof.
   repeat split. repeat constructor; cbn; discriminate.
 Qed.
 
+(* ---- the source of the fan-out: multiLevelWriter.Write / WriteLevel, FilteredLevelWriter.Write / WriteLevel and
+   LevelWriterAdapter.WriteLevel (writer.go) are re-translated by srcgen on every run (Gen/WriterSrc.v).  The destinations
+   are opaque: the calls made on them are logged, their answers (n, err) are the environment [ans], for every [ans].
+   For every list of writers, level, byte string and environment: every destination is called exactly once, in order,
+   with the same level and bytes - also after an earlier one failed -, and the returned (n, err) is the fold of the loop
+   body over the answers, which is the model's [acc_step]: the first failure wins, a short count without an error
+   becomes io.ErrShortWrite. ---- *)
+Theorem C14_source_multi_write_level : forall (ans : nat -> GoExt.oval) t l p,
+  WriterSrc.multiLevelWriter_WriteLevel ans t l p =
+  GoSem.Ok (SrcWriterP.fold_answers ans (GoSem.len p) (length (WriterSrc.multiLevelWriter_calls t)) (WriterSrc.multiLevelWriter_writers t) (0%Z, None),
+      WriterSrc.set_multiLevelWriter_calls t (WriterSrc.multiLevelWriter_calls t ++
+        map (fun w => GoExt.OCall SrcWriterP.fWriters SrcWriterP.mWriteLevel [GoExt.OVInt (Z.of_N w); GoExt.OVInt l; GoExt.OVBytes p])
+            (WriterSrc.multiLevelWriter_writers t))).
+Proof. exact SrcWriterP.multi_WriteLevel_src. Qed.
+
+Theorem C14_source_multi_write : forall (ans : nat -> GoExt.oval) t p,
+  WriterSrc.multiLevelWriter_Write ans t p =
+  GoSem.Ok (SrcWriterP.fold_answers ans (GoSem.len p) (length (WriterSrc.multiLevelWriter_calls t)) (WriterSrc.multiLevelWriter_writers t) (0%Z, None),
+      WriterSrc.set_multiLevelWriter_calls t (WriterSrc.multiLevelWriter_calls t ++
+        map (fun w => GoExt.OCall SrcWriterP.fWriters SrcWriterP.mWrite [GoExt.OVInt (Z.of_N w); GoExt.OVBytes p])
+            (WriterSrc.multiLevelWriter_writers t))).
+Proof. exact SrcWriterP.multi_Write_src. Qed.
+
+Theorem C14_source_loop_body_is_model : forall plen acc r,
+  SrcWriterP.acc_src plen (SrcWriterP.inj_ret acc) (SrcWriterP.inj_ret r) = SrcWriterP.inj_ret (acc_step acc r plen).
+Proof. exact SrcWriterP.acc_src_is_model. Qed.
+
+Theorem C14_source_filtered_write_level : forall (ans : nat -> GoExt.oval) w level p,
+  WriterSrc.FilteredLevelWriter_WriteLevel ans w level p =
+  if (WriterSrc.FilteredLevelWriter_Level w <=? level)%Z then
+    GoSem.Ok (SrcWriterP.answer ans (length (WriterSrc.FilteredLevelWriter_calls w)),
+        WriterSrc.set_FilteredLevelWriter_calls w (WriterSrc.FilteredLevelWriter_calls w ++
+          [GoExt.OCall SrcWriterP.fWriter SrcWriterP.mWriteLevel [GoExt.OVInt level; GoExt.OVBytes p]]))
+  else GoSem.Ok ((GoSem.len p, None), w).
+Proof. exact SrcWriterP.filtered_WriteLevel_src. Qed.
+
+Theorem C14_source_filtered_is_model : forall w level,
+  (WriterSrc.FilteredLevelWriter_Level w <=? level)%Z =
+  match through [WFiltered (WriterSrc.FilteredLevelWriter_Level w)] (MLevel level) with Some _ => true | None => false end.
+Proof. exact SrcWriterP.filtered_through_model. Qed.
+
+Theorem C14_source_adapter_write_level : forall (ans : nat -> GoExt.oval) lw l p,
+  WriterSrc.LevelWriterAdapter_WriteLevel ans lw l p =
+  GoSem.Ok (SrcWriterP.answer ans (length (WriterSrc.LevelWriterAdapter_calls lw)),
+      WriterSrc.set_LevelWriterAdapter_calls lw (WriterSrc.LevelWriterAdapter_calls lw ++
+        [GoExt.OCall SrcWriterP.fWriter SrcWriterP.mWrite [GoExt.OVBytes p]])).
+Proof. exact SrcWriterP.adapter_WriteLevel_src. Qed.
+
+Theorem C14_source_translated_set :
+  length WriterSrc.translated_functions = 5%nat /\ length WriterSrc.skipped_functions = 4%nat.
+Proof. exact SrcWriterP.writer_counts. Qed.
+
 Print Assumptions C14_every_destination_once.
 Print Assumptions C14_level_writer_destination.
 Print Assumptions C14_io_writer_destination.
@@ -178,3 +231,10 @@ Print Assumptions C14_event_independent.
 Print Assumptions C14_next_events_unaffected.
 Print Assumptions C14_next_event_clean.
 Print Assumptions C14_single_short_write_silent.
+Print Assumptions C14_source_multi_write_level.
+Print Assumptions C14_source_multi_write.
+Print Assumptions C14_source_loop_body_is_model.
+Print Assumptions C14_source_filtered_write_level.
+Print Assumptions C14_source_filtered_is_model.
+Print Assumptions C14_source_adapter_write_level.
+Print Assumptions C14_source_translated_set.
